@@ -333,6 +333,7 @@ def group_case(sh, rng, shape=None, axis='random', reduction='random'):
         refit = np.array(rows2).reshape(shape2 + (nsamp,))
     case = {'group': True, 'sigs': sigs, 'fs': fs, 'f_range': (lo, hi), 'settings': settings, 'axis': axis, 'refit': refit,
             'reduction': [None, 0.0, 0.1, 0.2][int(rng.integers(0, 4))] if reduction == 'random' else reduction}
+    case['rebind'] = bool(rng.random() < 0.5)
     if rng.random() < 0.5:
         case['edit_before_recompute'] = [['monotonicity_threshold', 0.3], ['amp_consistency_threshold', 0.2], ['min_n_cycles', 2],
                                          ['period_consistency_threshold', 0.25]][int(rng.integers(0, 4))]
@@ -412,10 +413,21 @@ def run_group(sh, case, driver='group'):
     if not vs and case.get('refit') is not None:
         sigs2 = np.asarray(case['refit'])
         axis2 = 0
-        _, e2 = outcome(lambda: bg.fit(np.array(sigs2, copy=True), case['fs'], tuple(case['f_range']), axis=axis2, n_jobs=1))
         fresh = BycycleGroup(**copy.deepcopy(case['settings']))
         if case.get('edit_before_recompute') and case.get('reduction') is not None and Shadow(case['settings']).method == 'cycles':
             fresh.thresholds[case['edit_before_recompute'][0]] = case['edit_before_recompute'][1]      # the same current settings
+        if case.get('rebind'):
+            # settings re-assigned on the group between the two fits (new dict objects, another centring): the fresh object gets the
+            # same current settings through its constructor
+            cur = dict(fresh.thresholds)
+            k0 = [k for k in cur if k.endswith('_threshold')][0]
+            cur[k0] = 0.15 if cur[k0] != 0.15 else 0.35
+            new_center = 'trough' if Shadow(case['settings']).center == 'peak' else 'peak'
+            bg.thresholds = dict(cur)
+            bg.center_extrema = new_center
+            fresh = BycycleGroup(**dict(copy.deepcopy(case['settings']), thresholds=dict(cur), center_extrema=new_center))
+            sh.note('group_settings_reassigned_between_fits')
+        _, e2 = outcome(lambda: bg.fit(np.array(sigs2, copy=True), case['fs'], tuple(case['f_range']), axis=axis2, n_jobs=1))
         _, e3 = outcome(lambda: fresh.fit(np.array(sigs2, copy=True), case['fs'], tuple(case['f_range']), axis=axis2, n_jobs=1))
         attach.count('eval:group_refit_compared')
         sh.note('group_refit:%s->%s' % (list(sigs.shape[:-1]), list(sigs2.shape[:-1])))
